@@ -20,8 +20,20 @@ VIA = "ctor"
 DECOYS = True
 
 
+import dataclasses as _dc
+
+
+@_dc.dataclass(frozen=True)
+class FrozenBox:
+    """A frozen dataclass holding a mutable list: immutable on the surface only."""
+
+    items: list
+
+
 def canon(v):
     """JSON round-trip safe value: lists -> tuples (hashable terms)."""
+    if isinstance(v, dict) and "$frozen" in v:  # a frozen dataclass instance with a mutable member (C18)
+        return FrozenBox([canon(x) for x in v["$frozen"]])
     if isinstance(v, list):
         return tuple(canon(x) for x in v)
     if isinstance(v, tuple):
@@ -234,6 +246,8 @@ class H:
             self._leave(spec, c, exc=e)
             raise
         self._leave(spec, c, ret)
+        if ret is None and spec.get("gen"):
+            return ()  # a side-effect-only generator node yields nothing
         return ret
 
     async def acall(self, nid, args):
@@ -249,6 +263,8 @@ class H:
             self._leave(spec, c, exc=e)
             raise
         self._leave(spec, c, ret)
+        if ret is None and spec.get("gen"):
+            return ()
         return ret
 
     # ------------------------------------------------------------------ behaviours
